@@ -294,7 +294,9 @@ namespace
                    arr.max_node_size());
             ok = false;
         }
-        for (std::size_t s = 1; s <= max_node; ++s)
+        // every size the array says it supports (its reported maximum can exceed the constructor
+        // argument: log2 buckets round up)
+        for (std::size_t s = 1; s <= arr.max_node_size() && s <= 4 * max_node; ++s)
         {
             ++C.evaluations;
             ++C.per_fn[name];
